@@ -16,6 +16,8 @@ not change the output):
   `round_smart`'s default precision; the `on_error` policy literals;
 * the `add_units` decorator: the factor expression (`np.power(self.units, power)`: the Quantity, not the bare Unit), its guard,
   and every `@add_units(compact=…, power=…)` site with its literals;
+* `make_dotprops`: per input-type branch the metadata keys handed to the new Dotprops and whether that happens before the
+  first (early) `return`;
 * the `units` setter: accepted lengths, spelling substitutions, the template for plain numbers;
 * the guard of the final `self.units = units` of `TreeNeuron.__init__` / `MeshNeuron.__init__`;
 * every `map_units(...)` call site (enclosing function, argument, `on_error`, whether the result is bound back to the name);
@@ -365,6 +367,46 @@ def extract_add_units(cu_tree, class_trees):
     return dict(factor=factor, guard=guard, compactGuarded=compact_guarded, sites=sites)
 
 
+def extract_make_dotprops_meta(cu_tree):
+    """per input-type branch of `make_dotprops`: the keys of `properties.update({...})` / `properties[...] = …` and whether the
+    update comes before the first `return` of the branch (an early return must not skip it)"""
+    fn = next((n for n in cu_tree.body if isinstance(n, ast.FunctionDef) and n.name == 'make_dotprops'), None)
+    if fn is None:
+        raise Untranslatable('make_dotprops not found')
+    out = []
+
+    def branch(test, body):
+        t = _src(test)
+        if not t.startswith('isinstance(x, core.'):
+            return
+        cname = t[len('isinstance(x, core.'):].rstrip(')')
+        keys, first_upd, first_ret = [], None, None
+        for st in body:
+            for n in ast.walk(st):
+                if isinstance(n, ast.Call) and _src(n.func) == 'properties.update' and n.args and isinstance(n.args[0], ast.Dict):
+                    ks = [_lit(k) for k in n.args[0].keys]
+                    keys += [k for k in ks if k not in keys]
+                    first_upd = n.lineno if first_upd is None else min(first_upd, n.lineno)
+                if isinstance(n, ast.Assign) and len(n.targets) == 1 and isinstance(n.targets[0], ast.Subscript) \
+                        and _src(n.targets[0].value) == 'properties':
+                    k = _lit(n.targets[0].slice)
+                    if k not in keys:
+                        keys.append(k)
+                if isinstance(n, ast.Return):
+                    first_ret = n.lineno if first_ret is None else min(first_ret, n.lineno)
+        before = first_upd is not None and (first_ret is None or first_upd < first_ret)
+        out.append((cname, before, sorted(str(k) for k in keys)))
+
+    for st in fn.body:
+        node = st
+        while isinstance(node, ast.If):
+            branch(node.test, node.body)
+            node = node.orelse[0] if len(node.orelse) == 1 and isinstance(node.orelse[0], ast.If) else None
+    if not out:
+        raise Untranslatable('make_dotprops: no isinstance(x, core.<Class>) branches found')
+    return out
+
+
 def extract_units_setter(base_tree):
     cls = _class(base_tree, 'UnitObject')
     fn = None
@@ -481,6 +523,7 @@ def generate(repo: Path):
     conv = extract_convert_units(base_cls)
     tns = extract_to_neuron_space(cu, misc)
     setter = extract_units_setter(base)
+    mdp = extract_make_dotprops_meta(cu)
     addu = extract_add_units(cu, [(c, trees[c]) for c, _ in CLASSES])
     guards = [extract_init_guard(_class(trees[c], c), c) for c, _ in CLASSES]
     sites = extract_map_sites(repo)
@@ -565,6 +608,10 @@ def generate(repo: Path):
     A('/-- every decorated property: (class, property, compact, power) -/')
     A('def addUnitsSites : List (String × String × Bool × Nat) := [' +
       ', '.join(f'({_s(c)}, {_s(m)}, {_b(cp)}, {int(pw)})' for c, m, cp, pw in addu['sites']) + ']')
+    A('')
+    A('/-- `make_dotprops`, per input-type branch: (class, metadata update precedes the first `return`, keys passed on) -/')
+    A('def makeDotpropsMeta : List (String × Bool × List String) := [' +
+      ', '.join(f'({_s(c)}, {_b(b)}, {_sl(k)})' for c, b, k in mdp) + ']')
     A('')
     A('/-- last `self.units = units` of `__init__`: (class, present, guarded, guard expression) -/')
     A('def initUnits : List (String × Bool × Bool × String) := [' +
